@@ -789,7 +789,50 @@ def _d1_function(ck, spmd, rule, rel, q, locs, nu_of):
             ck.check(not later, rule + '.early-return', mod, r, q, u(r)[:80],
                      'no collective follows this rank-divergent return',
                      'a rank can return here (under `%s`) while the others go on to the collective at L%s' % (u(a.test)[:60], later[0].lineno if later else '?'))
+    _d1_continues(ck, spmd, rule + '.loops', mod, fn, q, cls, fi, nu, seeds, has_coll)
     return len(all_events)
+
+
+def _d1_continues(ck, spmd, rule, mod, fn, q, cls, fi, nu, seeds, has_coll):
+    """The third way out of an ITERATION (next to `break` and `return`): a
+    `continue` taken under a condition that differs between ranks skips, on
+    the ranks that take it, every collective the rest of the loop body still
+    issues in this iteration - the trip count stays the same, but the ranks no
+    longer execute the same SEQUENCE of collectives.  For every `continue`
+    and every rank-divergent branch assumption that dominates it from inside
+    its loop: no statement with a collective is reachable, inside the loop
+    and without passing the loop head again, from the opposite arm of that
+    test.  (Collectives inside the other arm of the same `if` are matched arm
+    against arm by the rule for divergent branches.)  Three-valued on the
+    definitions that reach the test."""
+    for c in [x for x in walk_local(fn) if isinstance(x, ast.Continue)]:
+        loop = enclosing(mod, c, (ast.For, ast.While, ast.AsyncFor), stop=fn)
+        if loop is None or c not in fi.cfg.dom:
+            continue
+        worst = None
+        for a in fi.cfg.dom.get(c, ()):
+            if not isinstance(a, Assume) or a.owner is loop or not inside(mod, a.owner, loop):
+                continue
+            opp = [x for x in fi.cfg.succ.get(a.owner, []) if isinstance(x, Assume) and x is not a]
+            skipped = [st for st in fi.cfg.nodes if st not in (ENTRY, EXIT) and not isinstance(st, Assume) and st is not loop and
+                       inside(mod, st, loop) and not inside(mod, st, a.owner) and has_coll(st) and
+                       any(fi.cfg.reachable(o, st, avoiding=[loop]) for o in opp)]
+            if not skipped:
+                continue
+            why = []
+            lv = _nonuniform_here(spmd, mod, fn, fi, cls, a.test, a.owner, nu, seeds, why=why)
+            if worst is None or lv > worst[0]:
+                worst = (lv, a, skipped, why)
+        if worst is None:
+            continue
+        lv, a, skipped, why = worst
+        v = 'match' if not lv else ('near', 1, None) if lv == 2 else ('far', 1, None)
+        ck.decide(v, rule, mod, c, q, 'continue under `%s` before the collective at L%s of the same iteration' % (u(a.test)[:80], skipped[0].lineno),
+                  'the rest of the iteration (with its collectives) is skipped under a rank-uniform condition',
+                  'the loop body issues collectives after this point (L%s: `%s`) and the iteration is abandoned by `continue` under the rank-divergent '
+                  'condition `%s` (%s): the ranks that skip the rest of the iteration do not enter those collectives while the others wait in them '
+                  '(deadlock, or a collective of iteration i is paired with one of iteration j)'
+                  % (skipped[0].lineno, u(skipped[0]).split('\n')[0][:80], u(a.test)[:80], ' -> '.join(why[:4])))
 
 
 def _d1_breaks(ck, spmd, rule, mod, fn, q, cls, loop, nu, seeds, ev, head):
@@ -2024,6 +2067,239 @@ def _d4_randind_shortcut(ck, rule, mod, fr, fi, F, main, r, val, facts, badmsg):
            'past the end of the owner\'s array and element 1 of rank 1 can never be drawn (choice neither valid nor uniform)' % (u(val)[:100], when))
 
 
+# ---------------------------------------------------------------------------
+# hidden state: module-level mutable containers (memo tables).  The striped
+# operations are specified as functions of their arguments (and of what the
+# collectives deliver in this call); a value taken from a table that outlives
+# the call is the value of THIS call only if the key it is stored under
+# determines everything the stored value was computed from.
+
+_CONTAINER_CTORS = {'dict', 'list', 'set', 'OrderedDict', 'defaultdict', 'WeakValueDictionary', 'WeakKeyDictionary', 'Counter', 'deque'}
+_CONTAINER_WRITERS = _GROWING | {'pop', 'popitem', 'clear', 'remove', 'discard', 'popleft', 'move_to_end', 'sort', 'reverse'}
+# key components that determine the whole VALUE of the array / sequence _X
+_INJECTIVE_KEYS = ['tuple(_X)', 'tuple(_X.tolist())', '_X.tobytes()', 'bytes(_X)', '_X.tostring()', 'tuple(map(int, _X))',
+                   'tuple(int(_I) for _I in _X)', 'tuple([int(_I) for _I in _X])']
+
+
+def module_containers(mod):
+    """{name: binding statement} of the names bound at module level to a
+    mutable container (display, comprehension or constructor call)."""
+    memo = getattr(mod, '_c14_containers', None)
+    if memo is not None:
+        return memo
+    out = {}
+
+    def scan(body):
+        for s in body:
+            if isinstance(s, (ast.Assign, ast.AnnAssign)) and s.value is not None:
+                v = s.value
+                if isinstance(v, (ast.Dict, ast.List, ast.Set, ast.DictComp, ast.ListComp, ast.SetComp)) or \
+                        (isinstance(v, ast.Call) and (call_name(v) or '').split('.')[-1] in _CONTAINER_CTORS):
+                    for t in (s.targets if isinstance(s, ast.Assign) else [s.target]):
+                        if isinstance(t, ast.Name):
+                            out[t.id] = s
+            elif isinstance(s, (ast.If, ast.Try, ast.With)):
+                scan(s.body)
+                scan(getattr(s, 'orelse', []) or [])
+                scan(getattr(s, 'finalbody', []) or [])
+                for h in getattr(s, 'handlers', []) or []:
+                    scan(h.body)
+    scan(mod.tree.body)
+    mod._c14_containers = out
+    return out
+
+
+def _module_level_names(mod):
+    import builtins
+    memo = getattr(mod, '_c14_module_names', None)
+    if memo is not None:
+        return memo
+    out = set(dir(builtins))
+    for s in ast.walk(mod.tree):
+        if mod.enclosing_function(s) is not None:
+            continue
+        if isinstance(s, (ast.Import, ast.ImportFrom)):
+            out.update((a.asname or a.name).split('.')[0] for a in s.names)
+        elif isinstance(s, (ast.FunctionDef, ast.AsyncFunctionDef, ast.ClassDef)):
+            out.add(s.name)
+        elif isinstance(s, ast.Assign) and mod.parent.get(s) is mod.tree:
+            for t in s.targets:
+                out.update(target_names(t))
+    mod._c14_module_names = out
+    return out
+
+
+def _rebinds_locally(fn, name):
+    if name in params(fn):
+        return True
+    if any(isinstance(s, ast.Global) and name in s.names for s in walk_local(fn)):
+        return False
+    return any(isinstance(x, ast.Name) and x.id == name and isinstance(x.ctx, (ast.Store, ast.Del)) for x in walk_local(fn))
+
+
+def container_uses(mod, fn, name):
+    """Uses of the module-level container `name` inside `fn`, by kind:
+    'lookup' (`G[K]` read; node = the Subscript), 'member' (`K in G`),
+    'store' ((statement, key, value) of `G[K] = V` / `G.setdefault(K, V)`),
+    'write' (any other in-place update), 'other' (anything else: G.get(K),
+    iteration, len, passing the object on)."""
+    out = {'lookup': [], 'member': [], 'store': [], 'write': [], 'other': []}
+    if _rebinds_locally(fn, name):
+        return out
+    for x in walk_local(fn):
+        if not (isinstance(x, ast.Name) and x.id == name):
+            continue
+        p = mod.parent.get(x)
+        if isinstance(p, ast.Subscript) and p.value is x:
+            if isinstance(p.ctx, ast.Load):
+                out['lookup'].append(p)
+                continue
+            st = mod.enclosing_stmt(p)
+            if isinstance(st, ast.Assign) and len(st.targets) == 1 and st.targets[0] is p:
+                out['store'].append((st, p.slice, st.value))
+            else:
+                out['write'].append(st)
+            continue
+        if isinstance(p, ast.Compare) and any(c is x for c in p.comparators) and all(isinstance(o, (ast.In, ast.NotIn)) for o in p.ops):
+            out['member'].append(p)
+            continue
+        if isinstance(p, ast.Attribute) and p.value is x and isinstance(mod.parent.get(p), ast.Call) and mod.parent.get(p).func is p:
+            call = mod.parent.get(p)
+            if p.attr == 'setdefault' and len(call.args) == 2:
+                out['store'].append((mod.enclosing_stmt(call), call.args[0], call.args[1]))
+                out['lookup'].append(call)
+                continue
+            if p.attr in _CONTAINER_WRITERS:
+                out['write'].append(mod.enclosing_stmt(call))
+                continue
+        out['other'].append(x)
+    return out
+
+
+class _TupleItem(ast.NodeTransformer):
+    """`(a, b)[0]` -> `a` (what the expansion of `key[0]` leaves behind)."""
+
+    def visit_Subscript(self, node):
+        self.generic_visit(node)
+        k = const_value(node.slice)
+        if isinstance(node.value, (ast.Tuple, ast.List)) and isinstance(k, int) and not isinstance(k, bool) and \
+                -len(node.value.elts) <= k < len(node.value.elts) and not any(isinstance(e, ast.Starred) for e in node.value.elts):
+            return node.value.elts[k]
+        return node
+
+
+class _SubstKey(ast.NodeTransformer):
+    def __init__(self, texts):
+        self.texts = texts
+
+    def visit(self, node):
+        if isinstance(node, ast.expr) and not isinstance(node, ast.Constant):
+            k = self.texts.get(u(node))
+            if k is not None:
+                return ast.Name(id='__key%d__' % k, ctx=ast.Load())
+        return self.generic_visit(node)
+
+
+def memo_verdict(mod, fn, fi, uses, lookup):
+    """Does the key of the memo read `lookup` (`G[K]` / `G.setdefault(K, V)`)
+    determine the value found there?  Every store `G[K'] = V` of the function
+    must use the same key expression (after expansion), and every operand V
+    was computed from - a name that is neither module-level nor bound by a
+    comprehension, after the temporaries have been expanded - must be a
+    component of the key, or be covered by a component that encodes its whole
+    value (tuple(x), x.tobytes(), ...).  A key that contains only a lossy
+    function of an operand (its sum, its length, its id) does not determine
+    it.  Returns (verdict, stored value or None, explanation): 'match' /
+    'near' (V is a pure function of operands the key leaves open) / 'far'."""
+    here = fi.stmt(lookup)
+    key = lookup.slice if isinstance(lookup, ast.Subscript) else lookup.args[0]
+    kx = _TupleItem().visit(copy.deepcopy(xn(fi, key, here)))
+    if not uses['store']:
+        return 'far', None, 'no store into the table in this function'
+    if uses['write'] or uses['other']:
+        return 'far', None, 'the table is also used in a way this rule does not interpret'
+    glob = _module_level_names(mod)
+    value, open_ = None, []
+    for st, k2, v in uses['store']:
+        k2x = _TupleItem().visit(copy.deepcopy(xn(fi, k2, st)))
+        if u(k2x) != u(kx):
+            return 'far', None, 'stored under `%s`, read under `%s`' % (u(k2x)[:80], u(kx)[:80])
+        vx = _TupleItem().visit(copy.deepcopy(xn(fi, v, st)))
+        comps = list(k2x.elts) if isinstance(k2x, ast.Tuple) else [k2x]
+        texts = {}
+        for i, c in enumerate(comps):
+            texts.setdefault(u(c), i)
+        covered = set()
+        for c in comps:
+            m = _classify(c, _INJECTIVE_KEYS)
+            if m[0] == 'match' and isinstance(m[1].get('_X'), ast.Name):
+                covered.add(m[1]['_X'].id)
+        rest = _SubstKey(texts).visit(copy.deepcopy(vx))
+        bound = _comp_bound(rest)
+        deps = {x.id for x in ast.walk(rest) if isinstance(x, ast.Name) and isinstance(x.ctx, ast.Load) and not x.id.startswith('__key') and
+                x.id not in bound and x.id not in glob and x.id not in _GLOBALS and x.id not in _NEUTRAL}
+        left = sorted(deps - covered)
+        if left:
+            lossy = [u(c) for c in comps if names_loaded(c) & set(left)]
+            open_.append((st, vx, left, lossy))
+        value = vx
+    if not open_:
+        return 'match', (value if len(uses['store']) == 1 else None), 'the key `%s` determines every operand of the stored value' % u(kx)[:100]
+    st, vx, left, lossy = open_[0]
+    msg = ('the value stored under the key `%s` is computed from %s (`%s`), which the key does not determine%s: a later call with the same key and a '
+           'different %s is answered with the value of the EARLIER call (state that outlives the call; the result is no longer a function of this '
+           'call\'s data)' % (u(kx)[:100], ', '.join('`%s`' % x for x in left), u(vx)[:160],
+                              ' (it enters the key only through %s)' % ', '.join('`%s`' % t[:60] for t in lossy) if lossy else '', left[0]))
+    # a violation only if each open operand is a datum of THIS call: a parameter, or a value computed directly from
+    # parameters (e.g. the all-gathered local lengths); a name built up by statements this rule does not follow (a loop
+    # filling a table) may well be determined by the key: incomplete
+    ps = set(params(fn))
+
+    def per_call(x):
+        defs = fi.rd.defs_at(st, x)
+        if defs == {'PARAM'}:
+            return True
+        if len(defs) != 1:
+            return False
+        site = next(iter(defs))
+        v = fi.def_value(site, x) if site not in ('PARAM', 'UNBOUND') and isinstance(site, (ast.Assign, ast.AnnAssign)) else None
+        if v is None:
+            return False
+        free = {n for n in names_loaded(v) if n not in glob and n not in _GLOBALS and n not in _NEUTRAL and n not in _comp_bound(v)}
+        return bool(free) and free <= ps and all(fi.rd.defs_at(site, n) == {'PARAM'} for n in free)
+    return ('near' if _pure(vx) and all(per_call(x) for x in left) else 'far'), None, msg
+
+
+HIDDEN_STATE_MODULES = (OPS, IO, KC, KM, HY)
+
+
+def d24_hidden_state(ck):
+    """No function of the MPI layer / the distributed clustering code answers
+    from module-level mutable state unless the key of the lookup determines
+    the stored value (see memo_verdict)."""
+    rule = 'C14.D11.hidden-state'
+    for rel in HIDDEN_STATE_MODULES:
+        mod = ck.repo.mod(rel)
+        found = 0
+        for G in sorted(module_containers(mod)):
+            per_fn = [(q, f, container_uses(mod, f, G)) for q, f in sorted(mod.functions.items())]
+            if not any(us['store'] or us['write'] for _, _, us in per_fn):
+                continue            # never updated by a function: a constant table
+            for q, f, us in per_fn:
+                if not (us['lookup'] or us['other']):
+                    continue
+                found += 1
+                fi = finfo(mod, f)
+                for x in us['other']:
+                    ck.missing(rule, 'construct not recognised at %s: the module-level container `%s` (updated by functions of the module) is read in %s '
+                                     'other than by `%s[key]` / `key in %s`: %s' % (mod.loc(x), G, q, G, G, u(mod.enclosing_stmt(x)).split('\n')[0][:100]))
+                for lk in us['lookup']:
+                    v, _, msg = memo_verdict(mod, f, fi, us, lk)
+                    ck.decide(v if v == 'match' else (v, 1, None), rule + '.memo-key', mod, lk, q, u(lk)[:160], msg, msg)
+        if not found:
+            ck.ok(rule, mod, None, '%s: functions reading module-level mutable containers' % rel, 'none: results depend on the arguments (and the collectives) of the call only')
+
+
 def _d4_randind_table(ck, rule, mod, fr, fi, F, P, r, vv, facts):
     """the rank table, the per-rank counts and the drawn index behind the
     return `r` that reads the table; facts['G'] / facts['N'] receive the
@@ -2034,6 +2310,16 @@ def _d4_randind_table(ck, rule, mod, fr, fi, F, P, r, vv, facts):
     if isinstance(G, ast.Name):
         facts['G'] = G.id
     rr = rule + '.randind-table'
+    if isinstance(A, ast.Subscript) and isinstance(A.value, ast.Name) and A.value.id in module_containers(mod):
+        # the table is taken from a module-level memo: the hidden-state rule (C14.D11) decides whether the key
+        # determines it; if it does, the stored value is the table of this call
+        us = container_uses(mod, fr, A.value.id)
+        mv = memo_verdict(mod, fr, fi, us, us['lookup'][0]) if len(us['lookup']) == 1 else ('far', None, '')
+        if mv[0] != 'match' or mv[1] is None:
+            if mv[0] == 'match' or not us['lookup']:
+                ck.missing(rr, 'randind: the rank table is read from the module-level container `%s` in a way that was not understood' % A.value.id)
+            return
+        A = norm(mv[1])
     v2 = _classify(A, ['ra.RaggedArray(np.concatenate([np.arange(_T)[_R::mpi.size()] for _R in range(mpi.size())]), lengths=_N, error_checking=False)',
                        'ra.RaggedArray(np.concatenate([np.arange(_T)[_R::mpi.size()] for _R in range(mpi.size())]), lengths=_N)',
                        'ra.RaggedArray(np.concatenate(tuple(np.arange(_T)[_R::mpi.size()] for _R in range(mpi.size()))), lengths=_N, error_checking=False)'])
@@ -4127,6 +4413,7 @@ def check(ck):
     d21_centre_representation(ck)
     d22_aligned_lengths(ck)
     d23_asserts_admit_consistent_case(ck)
+    d24_hidden_state(ck)
     d10_every_rank(ck)
     d11_empty_local(ck)
     d18_asserts_admit_empty_rank(ck)
